@@ -18,6 +18,7 @@ from .spec import (
 )
 
 REGISTRY: dict[str, Contract] = {}
+ZERO_ARR = z3.K(z3.IntSort(), z3.IntVal(0))
 
 
 def register(cls):
@@ -335,7 +336,13 @@ class ScheduleInit(Contract):
 
     def modifies(self, c):
         s = c["self"]
-        return Frame(fields={"instance": [s], "_schedule": [s], "metadata": [s]}, allocates="lists")
+        return Frame(fields={"instance": [s], "_schedule": [s], "metadata": [s], "$$cumS": [s]}, allocates="lists")
+
+    def ghost(self, c, st):
+        # ghost prefix sums of the machine list lengths of a brand-new empty schedule
+        if z3.is_true(z3.simplify(c["schedule"] == 0)) or True:
+            st.heap = st.heap.put("$$cumS", c["self"],
+                                  z3.If(c["schedule"] == 0, ZERO_ARR, st.heap.get("$$cumS", c["self"])))
 
     def ensures(self, c):
         h0, h, s = c.h0, c.h, c["self"]
@@ -343,7 +350,8 @@ class ScheduleInit(Contract):
         M = h0.get("$num_machines", c["instance"])
         given = c["schedule"] != 0
         out = [("instance", h.get("instance", s) == c["instance"]),
-               ("given-schedule-kept", imp(given, S1 == c["schedule"]))]
+               ("given-schedule-kept", imp(given, S1 == c["schedule"])),
+               ("count-ghost-zero", imp(z3.Not(given), h.get("$$cumS", s) == ZERO_ARR))]
         out += [(n, imp(z3.Not(given), p)) for n, p in fresh_empty_schedule(h0, h, S1, M)]
         return out
 
@@ -359,12 +367,16 @@ class ScheduleReset(Contract):
         return [("self", z3.And(s > 0, I > 0, h.get("$num_machines", I) >= 0))]
 
     def modifies(self, c):
-        return Frame(fields={"_schedule": [c["self"]]}, allocates="lists")
+        return Frame(fields={"_schedule": [c["self"]], "$$cumS": [c["self"]]}, allocates="lists")
+
+    def ghost(self, c, st):
+        st.heap = st.heap.put("$$cumS", c["self"], ZERO_ARR)
 
     def ensures(self, c):
         h0, h, s = c.h0, c.h, c["self"]
         M = h0.get("$num_machines", h0.get("instance", s))
-        return fresh_empty_schedule(h0, h, h.get("_schedule", s), M)
+        return fresh_empty_schedule(h0, h, h.get("_schedule", s), M) + \
+            [("count-ghost-zero", h.get("$$cumS", s) == ZERO_ARR)]
 
 
 @register
@@ -799,7 +811,8 @@ class DispDispatch(Contract):
         h, d, o = c.h0, c["self"], c["operation"]
         D = Disp(h, d)
         eff = _eff_machine(c)
-        return _tracking_frame(h, d, extra_fields={"$posm": [o], "$posi": [o]}, extra_lists=[D.Sm(eff)],
+        return _tracking_frame(h, d, extra_fields={"$posm": [o], "$posi": [o], "$$cumS": [D.sch], "$$cumK": [d]},
+                               extra_lists=[D.Sm(eff)],
                                alloc_objects=["operation", "start_time", "_machine_id", "$mq"])
 
     def _ghost_place(self, c, st):
@@ -815,6 +828,14 @@ class DispDispatch(Contract):
         ok = lambda t: z3.And(rng(t, 0, D.it.nmach(o)), D.it.mach(o, t) == eff)
         st.assume(imp(z3.Exists([q], ok(q)), ok(qw)))
         st.heap = st.heap.put("$mq", x, qw)
+        # ghost prefix sums: one more operation on machine `eff`, one more of job j
+        t = bv("t")
+        A = fresh("cumS", z3.ArraySort(z3.IntSort(), z3.IntSort()))
+        B = fresh("cumK", z3.ArraySort(z3.IntSort(), z3.IntSort()))
+        j = D.it.jid(o)
+        st.assume(forall([t], z3.Select(A, t) == D.cumS(t) + z3.If(t > eff, 1, 0), patterns=[z3.Select(A, t)]))
+        st.assume(forall([t], z3.Select(B, t) == D.cumK(t) + z3.If(t > j, 1, 0), patterns=[z3.Select(B, t)]))
+        st.heap = st.heap.put("$$cumS", D.sch, A).put("$$cumK", d, B)
 
     @property
     def ghost_after(self):
@@ -843,6 +864,7 @@ class DispDispatch(Contract):
                                    z3.And(D1.kj(q) == D0.kj(q), D1.jn(q) == D0.jn(q))),
                           patterns=[D1.kj(q)]))),
             ("ghost-position", z3.And(D1.posm(o) == m, D1.posi(o) == n)),
+            ("one-more-operation-scheduled", D1.n == D0.n + 1),
         ] + reach(h, d)
 
 
@@ -858,17 +880,18 @@ class DispInit(Contract):
     def modifies(self, c):
         s = c["self"]
         names = ["instance", "schedule", "ready_operations_filter", "subscribers", "_machine_next_available_time",
-                 "_job_next_operation_index", "_job_next_available_time", "_cache", "$born"]
+                 "_job_next_operation_index", "_job_next_available_time", "_cache", "$born", "$$cumK"]
         return Frame(fields={n: [s] for n in names}, allocates=True)
 
     def ghost(self, c, st):
-        st.heap = st.heap.put("$born", c["self"], c.h0.alloc)
+        st.heap = st.heap.put("$born", c["self"], c.h0.alloc).put("$$cumK", c["self"], ZERO_ARR)
 
     def ensures(self, c):
         h0, h, d = c.h0, c.h, c["self"]
         return [("instance-kept", h.get("instance", d) == c["instance"]),
                 ("filter-stored", h.get("ready_operations_filter", d) == c["ready_operations_filter"]),
                 ("no-subscribers", h.len(h.get("subscribers", d)) == 0),
+                ("nothing-scheduled", Disp(h, d).n == 0),
                 ("born", h.get("$born", d) == h0.alloc)] + reach(h, d) + empty_state(h, d)
 
 
@@ -886,17 +909,26 @@ class DispReset(Contract):
     def modifies(self, c):
         h, d = c.h0, c["self"]
         D = Disp(h, d)
-        names = ["_machine_next_available_time", "_job_next_operation_index", "_job_next_available_time", "_cache"]
+        names = ["_machine_next_available_time", "_job_next_operation_index", "_job_next_available_time", "_cache",
+                 "$$cumK"]
         fields = {n: [d] for n in names}
         fields["_schedule"] = [D.sch]
+        fields["$$cumS"] = [D.sch]
         fields.update({f: "ALL" for f in OBS_FIELDS})
         return Frame(fields=fields, olists="ALL", alloc_lists=True)
+
+    @property
+    def ghost_after(self):
+        def zero_counts(c, st):
+            st.heap = st.heap.put("$$cumK", c["self"], ZERO_ARR)
+        return {"self._job_next_operation_index = [0] * self.instance.num_jobs": zero_counts}
 
     def ensures(self, c):
         h0, h, d = c.h0, c.h, c["self"]
         D0, D1 = Disp(h0, d), Disp(h, d)
         return [("same-objects", z3.And(D1.I == D0.I, D1.sch == D0.sch, D1.subs == D0.subs,
-                                        h.get("$born", d) == h0.get("$born", d)))] + reach(h, d) + empty_state(h, d)
+                                        h.get("$born", d) == h0.get("$born", d))),
+                ("nothing-scheduled", D1.n == 0)] + reach(h, d) + empty_state(h, d)
 
     @property
     def loops(self):
@@ -909,3 +941,102 @@ class DispReset(Contract):
         def mod(k):
             return obs_frame()
         return {0: LoopSpec("for subscriber in self.subscribers", inv, mod)}
+
+
+@register
+class DispNextOperation(Contract):
+    name = "Dispatcher.next_operation"
+    ret = REF("Operation")
+    pure = True
+    properties = ("C05", "C09")
+
+    def requires(self, c):
+        return reach(c.h0, c["self"])
+
+    def _jw(self, c):
+        D = Disp(c.h0, c["self"])
+        j = c["job_id"]
+        return D, z3.If(j < 0, j + D.it.J, j)
+
+    def raises(self, c):
+        D, jw = self._jw(c)
+        in_range = rng(jw, 0, D.it.J)
+        return [("IndexError", "job-id-out-of-range", z3.Not(in_range)),
+                ("ValidationError", "no-operation-left", z3.And(in_range, D.it.L(jw) <= D.kj(jw)))]
+
+    def ensures(self, c):
+        D, jw = self._jw(c)
+        return [("next-unscheduled-operation-of-the-job", c.result == D.it.op(jw, D.kj(jw)))]
+
+
+
+# ---------------------------------------------------------------------------
+# counting: sums discharged through the SUM RULE against ghost prefix sums
+# ---------------------------------------------------------------------------
+@register
+class ScheduleNumScheduled(Contract):
+    name = "Schedule.num_scheduled_operations"
+    ret = INT
+    pure = True
+    properties = ("C01", "C04", "C18")
+
+    def requires(self, c):
+        h, s = c.h0, c["self"]
+        S = h.get("_schedule", s)
+        m = bv("m")
+        cum = lambda t: z3.Select(h.get("$$cumS", s), t)
+        return [("self", z3.And(s > 0, S > 0)),
+                ("count-ghost", z3.And(cum(0) == 0, forall([m], imp(rng(m, 0, h.len(S)),
+                                                                    cum(m + 1) == cum(m) + h.len(h.at(S, m))))))] \
+            + sched_wf(h, S)
+
+    def ensures(self, c):
+        h, s = c.h0, c["self"]
+        return [("sum-of-machine-list-lengths", c.result == z3.Select(h.get("$$cumS", s), h.len(h.get("_schedule", s))))]
+
+    @property
+    def sum_specs(self):
+        def G(c, st):
+            return lambda t: z3.Select(c.h0.get("$$cumS", c["self"]), t)
+        return {"sum((len(machine_schedule) for machine_schedule in self.schedule))": G}
+
+
+@register
+class InstNumOperations(Contract):
+    name = "JobShopInstance.num_operations"
+    ret = INT
+    pure = True
+    properties = ("C01", "C04", "C14", "C18")
+
+    def requires(self, c):
+        return valid_instance(c.h0, c["self"])
+
+    def ensures(self, c):
+        it = Inst(c.h0, c["self"])
+        return [("sum-of-job-lengths", c.result == it.N)]
+
+    @property
+    def sum_specs(self):
+        def G(c, st):
+            it = Inst(c.h0, c["self"])
+            return it.cumL
+        return {"sum((len(job) for job in self.jobs))": G}
+
+
+@register
+class ScheduleIsComplete(Contract):
+    name = "Schedule.is_complete"
+    ret = BOOL
+    pure = True
+    properties = ("C01", "C04", "C18")
+
+    def requires(self, c):
+        h, s = c.h0, c["self"]
+        pre = ScheduleNumScheduled().requires(c)
+        return pre + [("instance", h.get("instance", s) > 0)] + valid_instance(h, h.get("instance", s))
+
+    def ensures(self, c):
+        h, s = c.h0, c["self"]
+        it = Inst(h, h.get("instance", s))
+        n = z3.Select(h.get("$$cumS", s), h.len(h.get("_schedule", s)))
+        return [("complete-iff-all-operations-scheduled", c.result == (n == it.N))]
